@@ -113,6 +113,7 @@ class Skeleton:
                 e.external = True
             else:
                 e.external = False
+        e = None  # do not keep the last edge alive: its __del__ must run when it is removed below
 
         # triangles in the middle
         inner_edge_triangles = []
